@@ -1001,7 +1001,8 @@ class TreeTransform(Generic[TreeFnT]):
           '`output_keys` is deprecated, use positional arguments or'
           ' `assign_keys` instead.'
       )
-    assign_keys = assign_keys or output_keys
+    # Not `or`: a key such as Index(0) is falsy.
+    assign_keys = output_keys if assign_keys in (None, ()) else assign_keys
     fn = tree_fns.Assign(
         output_keys=assign_keys,
         fn=fn,
@@ -1018,7 +1019,8 @@ class TreeTransform(Generic[TreeFnT]):
       output_keys: TreeMapKeys | None = None,
       batch_size: int = 0,
   ) -> TreeTransform:
-    output_keys = output_keys or input_keys
+    # Not `or`: a key such as Index(0) is falsy.
+    output_keys = input_keys if output_keys in (None, ()) else output_keys
     fn = tree_fns.Select(
         input_keys=input_keys, output_keys=output_keys, batch_size=batch_size
     )
